@@ -626,6 +626,12 @@ func checkProperty(opt *Options, start time.Time) int {
 			}
 		}
 		if nCheck == 0 && len(r.Errs) == 0 {
+			if fs := sf.Funcs[r.Key]; fs != nil && !specMentions(fs, sf, opt.prop) {
+				// selected only because it touches a lock whose invariant serves the property, but it never
+				// releases the write lock: nothing to prove here
+				funcs = funcs[:len(funcs)-1]
+				continue
+			}
 			errors = append(errors, r.Key+": selected for "+opt.prop+" but generated no obligation for it (vacuity guard)")
 		}
 	}
